@@ -49,13 +49,13 @@ func C09(r *Run) *core.Report {
 			continue
 		}
 		rep.Fn(fn(f))
-		it := &sym.Interp{P: r.P, M: r.M, MaxPaths: 500}
+		it := newInterp(r, false)
 		paths := it.Run(f)
 		if len(paths) == 0 || it.Overflow {
 			rep.Undecided("C09.X1", fn(f), r.P.Pos(f.Pos()), "no return path evaluated")
 			continue
 		}
-		dName := f.Params[len(f.Params)-1].Name()
+		dName := fmt.Sprintf("a%d", len(f.Params)-1)
 		for _, p := range paths {
 			nPart++
 			cons := fmt.Sprintf("%s [%s]", fn(f), stripOrd(sym.DescribePC(p.PC)))
@@ -128,9 +128,9 @@ func C09(r *Run) *core.Report {
 			tableCheck(r, rep, "C09.X2", mp)
 			// direct rule: the expiration of every stored fresh item is Exp(<this method's TTL argument>)
 			wantArg := ""
-			for _, prm := range mp.Fn.Params {
+			for pi, prm := range mp.Fn.Params {
 				if strings.HasSuffix(typeName(prm.Type()), "Duration") {
-					wantArg = "param:" + prm.Name()
+					wantArg = fmt.Sprintf("param:a%d", pi)
 				}
 			}
 			switch name {
